@@ -10,10 +10,12 @@ from ..refmodels import bitwise_equal, eps_of, canon_bytes
 from .. import gen, seams, oracles
 
 
-def make_fun(simrhs, names):
-    """plain function fun(t, y, <names...>) forwarding to the simulated rhs peer with keyword constants."""
+def make_fun(simrhs, names, defaults=None):
+    """plain function fun(t, y, <names...>) forwarding to the simulated rhs peer with keyword constants.  `defaults` (name -> value)
+    gives parameters a default value: a caller may then pass fewer args than there are parameters."""
     ns = {"_rhs": simrhs}
-    args = "".join(", %s" % n for n in names)
+    defaults = defaults or {}
+    args = "".join(", %s%s" % (n, ("=%r" % defaults[n]) if n in defaults else "") for n in names)
     kw = ", ".join("%s=%s" % (n, n) for n in names)
     exec("def fun(t, y%s):\n    return _rhs(t, y%s)\n" % (args, (", " + kw) if kw else ""), ns)
     return ns["fun"]
@@ -63,7 +65,7 @@ class FacadeWorld(World):
             s = self.scn["system"]
             p = self.problem
             names = list(f.get("arg_names", []))
-            fun = make_fun(self.rhs, names)
+            fun = make_fun(self.rhs, names, f.get("defaults"))
             if f.get("wrapped_jac"):
                 fun = wrap_with_jacobian(self, fun)
             y0 = p.y0()
@@ -113,7 +115,7 @@ class ObjectWorld(World):
         names = list(f.get("arg_names", []))
         consts = None
         if f.get("args") is not None:
-            consts = {k: v for k, v in zip(names, f["args"])}
+            consts = {k: v for k, v in zip(names, f["args"])}      # bound in order: fun(t, y, *args); the rest keep their defaults
         y0 = p.y0()
         self.caller_y0 = y0
         self.caller_y0_copy = _c(y0)
@@ -125,7 +127,7 @@ class ObjectWorld(World):
         dt = np.maximum(dt, 0.0)
         self.events = [SimEvent(self, i, d) for i, d in enumerate(self.scn.get("events", []))]
         # the facade passes fun itself; the object API is given the same kind of callable
-        fun = make_fun(self.rhs, names)
+        fun = make_fun(self.rhs, names, f.get("defaults"))
         if f.get("wrapped_jac"):
             fun = wrap_with_jacobian(self, fun)
         self.system = de.OdeSystem(fun, y0, t=(s["t0"], s["tf"]), dense_output=bool(s.get("dense")), dt=dt,
@@ -220,6 +222,14 @@ class C18(Prop):
         if r.random() < 0.25 and scn["problem"]["family"] == "osc":
             scn["events"] = gen.gen_events(r, scn, r.choice([1, 2]), terminal_prob=0.3)
             facade["events"] = list(range(len(scn["events"])))
+        rdef_ = gen.sub(seed, "defaults")
+        if nargs >= 1 and rdef_.random() < 0.3:
+            # the right-hand side has more parameters than the caller passes: every parameter has a default, args covers a prefix
+            names = names + ["c9"] if rdef_.random() < 0.5 and len(names) < 3 else names
+            facade["arg_names"] = names
+            facade["defaults"] = {"k": 1.0, "c2": 5.0, "c3": 7.0, "c9": 2.5}
+            keep = rdef_.randint(1, max(1, len(names) - 1))
+            facade["args"] = args = list(args[:keep])
         rw_ = gen.sub(seed, "wrapped")
         if rw_.random() < (0.5 if gen.is_implicit(m) else 0.1):
             facade["wrapped_jac"] = True
@@ -312,6 +322,8 @@ class C18(Prop):
         names = fa.get("arg_names", [])
         if fa.get("args"):
             want_kw = {k: v for k, v in zip(names, fa["args"])}
+            for n_ in names[len(fa["args"]):]:
+                want_kw[n_] = fa["defaults"][n_]          # parameters beyond args keep their defaults
             seen = [c["kw"] for c in A.calls if c["seam"] == "rhs"]
             wrong = [kw for kw in seen if kw != want_kw]
             if wrong:
